@@ -126,7 +126,10 @@ def ast2astOp (j : Json) : R Json := do
       | .ok x => some x
       | .error _ => none
     | _, _ => none
-  match ast2ast args body with
+  let retAnn ← (match j.getObjVal? "returns" with
+    | .ok r => parseOptE r
+    | .error _ => pure none)
+  match ast2ast args retAnn body with
   | .ok (out, rules) =>
     let cls : List (String × Json) :=
       match typed with
